@@ -4,6 +4,7 @@ package main
 
 import (
 	"fmt"
+	"os"
 	"go/ast"
 	"go/constant"
 	"go/token"
@@ -666,6 +667,19 @@ func (fv *FV) assumeWF(st *State, v Val) {
 		}
 	case "Iface":
 		st.assume(fmt.Sprintf("(and (<= 0 (ityp %s)) (<= (ival %s) %s) (=> (= (ityp %s) 0) (= (ival %s) 0)))", v.T, v.T, st.alloc, v.T, v.T))
+		// an interface declared in the library can only hold the library's implementors
+		if n, ok := v.Typ.(*types.Named); ok && n.Obj().Pkg() != nil && fv.eng.scopePkgs[n.Obj().Pkg().Path()] {
+			if it, ok := n.Underlying().(*types.Interface); ok {
+				alts := []string{fmt.Sprintf("(= (ityp %s) 0)", v.T)}
+				for _, c := range fv.eng.implementors(it) {
+					if cn := namedOf(c); cn != nil && cn.Obj().Pkg() != nil && fv.eng.normPkgPath(cn.Obj().Pkg().Path()) == "GEN" && cn.Obj().Pkg() != n.Obj().Pkg() {
+						continue
+					}
+					alts = append(alts, fmt.Sprintf("(= (ityp %s) %d)", v.T, fv.u.typeID(c)))
+				}
+				st.assume("(or " + strings.Join(alts, " ") + ")")
+			}
+		}
 	}
 }
 
@@ -681,14 +695,29 @@ func (fv *FV) bind(st *State, in ssa.Value, v Val) {
 func (fv *FV) execInstr(st *State, in ssa.Instruction, rest func(*State)) bool {
 	switch x := in.(type) {
 	case *ssa.DebugRef:
+		if os.Getenv("GOVC_DEBUG_ID") == "*" {
+			fmt.Fprintf(os.Stderr, "debugref in %s block %d: expr %T X=%s isaddr=%v\n", st.fr.fn.Name(), x.Block().Index, x.Expr, x.X.Name(), x.IsAddr)
+		}
+		if _, isLit := x.Expr.(*ast.CompositeLit); isLit && st.fr.pendingName != "" {
+			// x/tools v0.29 records `v := T{...}` as "v is <zero>" followed by "T{...} is tN"
+			if vv, ok := st.fr.vals[x.X]; ok {
+				st.fr.names[st.fr.pendingName] = vv
+			}
+			st.fr.pendingName = ""
+		}
 		if id, ok := x.Expr.(*ast.Ident); ok && id.Name != "_" {
 			var v Val
+			st.fr.pendingName = ""
 			if _, isC := x.X.(*ssa.Const); isC {
 				v = fv.valOf(st, x.X)
+				st.fr.pendingName = id.Name
 			} else if vv, ok := st.fr.vals[x.X]; ok {
 				v = vv
 			} else {
 				break
+			}
+			if os.Getenv("GOVC_DEBUG_ID") == id.Name {
+				fmt.Fprintf(os.Stderr, "debugref %s in %s block %d: X=%s (%T) -> %q\n", id.Name, st.fr.fn.Name(), x.Block().Index, x.X.Name(), x.X, v.T)
 			}
 			if x.IsAddr {
 				st.fr.names[id.Name] = Val{Loc: fv.ptrLoc(v), Typ: v.Typ}
@@ -1018,4 +1047,12 @@ func (fv *FV) sliceInstr(st *State, x *ssa.Slice) {
 	default:
 		fv.unsupportedf("slice of %s", x.X.Type())
 	}
+}
+
+func namedOf(t types.Type) *types.Named {
+	if p, ok := t.(*types.Pointer); ok {
+		t = p.Elem()
+	}
+	n, _ := t.(*types.Named)
+	return n
 }
